@@ -24,6 +24,9 @@ RULE = (
     "1..M in lexicographic id order; BO strictly increases along the chain elements in reference order; chromosomes occupy "
     "disjoint BO ranges in requested order; both renderings give the identical node->(BO,NO) map. Non-trivial = >=2 bubbles, "
     "or a nested/inverted bubble, or >=2 chromosomes requested, or exactly one articulation point. Distinct by SHA-1 of the case."
+    " Later additions: segment names that look like internal names (0, b0, bubble1), haplotype tips beyond "
+    "the chain ends, one-segment chromosomes with a self-link, a chromosome named 'complete', components "
+    "named after a haplotype contig (either strand), haplotype contigs shared between chromosomes."
 )
 ASSUMPTIONS = [
     "components without any articulation point (one block) and chains whose end element has no rank-0 segment are not generated (the statement does not define their order)",
